@@ -15,12 +15,13 @@ RULE = ("catalogue of ~450 API calls as plain data (the three MUB calls and the 
         "interpreters with different PYTHONHASHSEED values and different call orders must all agree; their common value is "
         "the reference. Hypothesis RuleBasedStateMachine: rules = call any catalogue entry (arguments rebuilt, inputs "
         "snapshotted before/after), mutate any previously returned object by type (lists, nested lists, circuits, metadata, "
-        "dicts, graphs, lookup records, class objects), flush either module-level cache; at the end of every history every "
+        "dicts, graphs, lookup records, class objects), flush either module-level cache; every history is executed in a forked child "
+        "of a worker that has only imported the library (hermetic: cold start, nothing leaks between histories); at the end of every history every "
         "call whose result was mutated is issued again. Invariant: canonical result == reference after every call. A case is "
         "one history (plus one case per catalogue entry for the cross-process comparison). Non-trivial = history in which a "
         "mutation of a returned object precedes a later call of the same specification; distinct by the history.")
 ASSUMPTIONS = ["results are compared in a canonical JSON form (instruction lists, strings, edge lists, numbers)",
-               "cold cache = module-level cache dicts of circuit_lookup cleared; a different process = fresh interpreter with another hash seed",
+               "cold start = state of a freshly imported library (each history runs in a fork of a process that never called the library); a different process = fresh interpreter with another hash seed",
                "histories up to 30 (quick) / 60 (thorough) steps over a finite catalogue"]
 BUDGET = {"quick": 400, "thorough": 3000}
 HERE = os.path.dirname(os.path.dirname(os.path.abspath(__file__)))
@@ -70,20 +71,21 @@ def compute_references(ctx, specs, rep, k):
         if "raised" in base:
             rep.fail(f"catalogue-call-raises:{specs[i]['fn']}", {"spec": specs[i], "kind": "process"},
                      f"{specs[i]['fn']} raises {base['raised']} in a fresh interpreter for a supported request {json.dumps(specs[i])[:200]}")
-        ref[i] = base
+        ref[i] = base if agree else None      # no common value: already reported above, the machine skips this entry
     return ref
 
 
 # ---- executing a history (shared by the machine and by replay) ---------------------------------------
 
 class HistoryRunner:
-    def __init__(self, specs, ref):
+    def __init__(self, specs, ref, reset=True):
         self.specs, self.ref = specs, ref
         self.results = []      # (spec index, raw result)
         self.mutated = []      # spec indices whose result object was mutated
         self.history = []
         self.problems = []
-        c13lib.reset_caches()
+        if reset:
+            c13lib.reset_caches()
 
     def call(self, i, phase="call"):
         spec = self.specs[i]
@@ -100,7 +102,7 @@ class HistoryRunner:
         if before != after:
             which = [k for k in before if before[k] != after.get(k)]
             self.problems.append((f"input-modified:{spec['fn']}", f"{spec['fn']} modified its argument(s) {which}"))
-        if got != self.ref[i]:
+        if self.ref[i] is not None and got != self.ref[i]:
             mutated_before = i in self.mutated or any(self.specs[j]["fn"] == spec["fn"] or True for j in self.mutated)
             kind = "after-mutation" if self.mutated else ("after-history" if len(self.history) > 1 else "first-call")
             self.problems.append((f"{kind}:{spec['fn']}",
@@ -157,71 +159,113 @@ def run_history(specs_by_step, ref_lookup):
 
 
 # ---- the state machine -----------------------------------------------------------------------------------
+#
+# Every generated history is EXECUTED IN A FORKED CHILD of the worker process.  The worker itself only imports the library and
+# never calls it, so each history starts from the state of a freshly imported library (cold caches, wherever they are kept) and
+# nothing leaks from one history to the next: examples are hermetic, shrinking is sound, and a replay in a fresh interpreter
+# reproduces the failure.  The rules only record steps; the whole history is run and judged at the end of the example.
+
+def run_steps_isolated(specs, ref, steps):
+    """fork; in the child execute the steps with a HistoryRunner and report (problems with step index, executed history)"""
+    import pickle
+    r, w = os.pipe()
+    pid = os.fork()
+    if pid == 0:
+        code = 0
+        try:
+            os.close(r)
+            hr = HistoryRunner(specs, ref, reset=False)
+            firsts = []
+            for st in steps:
+                n0 = len(hr.problems)
+                if st[0] == "call":
+                    hr.call(st[1])
+                elif st[0] == "recall":
+                    if hr.results:
+                        hr.call(hr.results[st[1] % len(hr.results)][0])
+                elif st[0] == "mutate":
+                    hr.mutate(st[1], st[2])
+                else:
+                    hr.flush(st[1])
+                if len(hr.problems) > n0 and not firsts:
+                    firsts.append(len(hr.history))
+            if not hr.problems:
+                hr.finish()
+            data = pickle.dumps({"problems": hr.problems, "history": hr.history, "mutated": len(hr.mutated),
+                                 "first_problem_at": firsts[0] if firsts else None})
+            with os.fdopen(w, "wb") as f:
+                f.write(data)
+        except BaseException as e:  # noqa: BLE001
+            try:
+                with os.fdopen(w, "wb") as f:
+                    f.write(pickle.dumps({"error": f"{type(e).__name__}: {e}"}))
+            except Exception:  # noqa: BLE001
+                pass
+            code = 3
+        os._exit(code)
+    os.close(w)
+    with os.fdopen(r, "rb") as f:
+        data = f.read()
+    os.waitpid(pid, 0)
+    if not data:
+        raise fw.HarnessError("history child died without a report")
+    out = pickle.loads(data)
+    if "error" in out:
+        raise fw.HarnessError("history child failed: " + out["error"])
+    return out
+
 
 def shard_machine(arg):
     seed, n_examples, steps, specs, ref, deadline = arg
+    import warnings
+    warnings.filterwarnings("ignore", category=DeprecationWarning)
     import hypothesis
     from hypothesis import settings, HealthCheck, Phase, strategies as st
-    from hypothesis.stateful import RuleBasedStateMachine, rule, precondition, run_state_machine_as_test
+    from hypothesis.stateful import RuleBasedStateMachine, rule, run_state_machine_as_test
 
+    libif.lib()     # import only; the worker never calls into the library
     ref = {int(k): v for k, v in ref.items()}
     rep = fw.Report()
     found = {}
-    ncat = len(specs)
     # call the cheap / cache-backed functions more often than the heavy ones
     weights = []
     for i, s in enumerate(specs):
-        w = 6 if s["fn"] in ("get_mubs", "get_mub_circuits", "get_mub_info", "lookup") else (2 if s["fn"] in ("prep", "readout", "compress", "prep_graph") else 1)
-        if s["fn"] in ("tomo",) and s["n"] >= 5:
+        w = 6 if s["fn"] in ("get_mubs", "get_mub_circuits", "get_mub_info", "lookup") else (2 if s["fn"] in ("prep", "readout", "compress", "prep_graph", "class_graph") else 1)
+        if s["fn"] == "tomo" and s["n"] >= 5:
             w = 0 if s["n"] == 6 else 1
         weights += [i] * w
 
     class Machine(RuleBasedStateMachine):
         def __init__(self):
             super().__init__()
-            self.hr = HistoryRunner(specs, ref)
+            self.steps = []
             self.done = False
 
         @rule(w=st.integers(0, len(weights) - 1))
         def call(self, w):
-            self.hr.call(weights[w])
-            self.check()
+            self.steps.append(("call", weights[w]))
 
-        @precondition(lambda self: len(self.hr.results) > 0)
         @rule(k=st.integers(0, 10 ** 6), m=st.integers(0, 10 ** 4))
         def mutate(self, k, m):
-            self.hr.mutate(k, m)
+            self.steps.append(("mutate", k, m))
 
-        @precondition(lambda self: len(self.hr.results) > 0)
         @rule(k=st.integers(0, 10 ** 6))
         def recall(self, k):
-            i, _ = self.hr.results[k % len(self.hr.results)]
-            self.hr.call(i)
-            self.check()
+            self.steps.append(("recall", k))
 
         @rule(which=st.sampled_from(["stab", "mub", "both"]))
         def flush(self, which):
-            self.hr.flush(which)
-
-        def check(self):
-            if self.hr.problems:
-                self.record()
-                raise AssertionError(self.hr.problems[0][1])
-
-        def record(self):
-            hist = [h if h[0] != "call" else ["call", h[1]] for h in self.hr.history]
-            size = len(json.dumps(hist))
-            for key, msg in self.hr.problems:
-                if key not in found or size < found[key][0]:
-                    found[key] = (size, hist, msg)
+            self.steps.append(("flush", which))
 
         def teardown(self):
-            if self.done:
+            if self.done or not self.steps:
                 return
             self.done = True
-            n_before = len(self.hr.problems)
-            self.hr.finish()
-            hist = self.hr.history
+            if deadline and time.time() > deadline:
+                rep.truncated = True
+                return
+            out = run_steps_isolated(specs, ref, self.steps)
+            hist = out["history"]
             muts = [h for h in hist if h[0] == "mutate" and h[3]]
             rep.evaluations += 1
             rep.count("history_length", min(len(hist) // 10 * 10, 60))
@@ -230,25 +274,31 @@ def shard_machine(arg):
             if muts:
                 rep.nontrivial.add(fw.h64(json.dumps(hist, sort_keys=True, default=str)))
                 if len(rep.samples) < 2 and len(hist) <= 12:
-                    rep.samples.append({"history": [[h[0]] + ([h[1]["fn"], h[1].get("n"), h[1].get("name")] if h[0] == "call" else h[1:]) for h in hist]})
+                    rep.samples.append({"history": [[h[0]] + ([h[1]["fn"], h[1].get("n"), h[1].get("name")] if h[0] == "call" else list(h[1:])) for h in hist]})
             for h in hist:
                 if h[0] == "call":
                     rep.count("calls_by_function", h[1]["fn"])
                 elif h[0] == "mutate" and h[3]:
                     rep.count("mutations", h[3].split(":")[0][:40])
-            if self.hr.problems:
-                self.record()
-                if len(self.hr.problems) > n_before:
-                    raise AssertionError(self.hr.problems[n_before][1])
+            if out["problems"]:
+                cut = out["first_problem_at"] or len(hist)
+                hist = hist[:cut]
+                size = len(json.dumps(hist, default=str))
+                for key, msg in out["problems"][:1]:
+                    if key not in found or size < found[key][0]:
+                        found[key] = (size, hist, msg)
+                raise AssertionError(out["problems"][0][1])
 
-    Machine.TestCase.settings = settings(max_examples=n_examples, stateful_step_count=steps, deadline=None, database=None,
-                                         report_multiple_bugs=False, suppress_health_check=list(HealthCheck),
-                                         phases=[Phase.generate, Phase.shrink])
+    sett = settings(max_examples=n_examples, stateful_step_count=steps, deadline=None, database=None,
+                    report_multiple_bugs=False, suppress_health_check=list(HealthCheck),
+                    phases=[Phase.generate, Phase.shrink])
     try:
-        run_state_machine_as_test(hypothesis.seed(seed)(Machine), settings=Machine.TestCase.settings)
+        run_state_machine_as_test(hypothesis.seed(seed)(Machine), settings=sett)
     except AssertionError:
         pass
-    except Exception as e:  # noqa: BLE001  (Flaky etc.: state leaking between histories is itself a finding if problems were recorded)
+    except fw.HarnessError:
+        raise
+    except Exception as e:  # noqa: BLE001
         if not found:
             raise
         rep.extra["hypothesis_exception"] = type(e).__name__
